@@ -105,10 +105,10 @@ Lemma plan_txn_instr : forall o ver ids ms, Forall txn_instr (plan o ver ids ms)
 Proof.
   intros o ver ids ms. induction ms as [|m ms IH]; simpl.
   - constructor; [exact I|constructor].
-  - destruct (N.ltb ver (m_version m)); [|exact IH].
-    destruct (id_check ids m).
+  - destruct (id_check ids m).
     + constructor; [exact I|constructor].
-    + apply Forall_app. split.
+    + destruct (N.ltb ver (m_version m)); [|exact IH].
+      apply Forall_app. split.
       * apply Forall_forall. intros x Hx. apply in_map_iff in Hx. destruct Hx as [s [<- _]]. exact I.
       * constructor; [exact I|exact IH].
 Qed.
@@ -163,10 +163,10 @@ Lemma plan_terminal_last : forall o ver ids ms, terminal_last (plan o ver ids ms
 Proof.
   intros o ver ids ms. induction ms as [|m ms IH]; simpl.
   - exists [], ICommit. split; [reflexivity|exact I].
-  - destruct (N.ltb ver (m_version m)); [|exact IH].
-    destruct (id_check ids m).
+  - destruct (id_check ids m).
     + exists [], (IFail m0). split; [reflexivity|exact I].
-    + destruct IH as [pre [t [H Ht]]]. rewrite H.
+    + destruct (N.ltb ver (m_version m)); [|exact IH].
+      destruct IH as [pre [t [H Ht]]]. rewrite H.
       exists (map IExec (stmts_of o m) ++ IInsert (m_version m) (m_id m) :: pre), t.
       split; [|exact Ht]. rewrite <- app_assoc. reflexivity.
 Qed.
@@ -192,8 +192,9 @@ Qed.
 Section Conc.
 Variables (o : opts) (ms : list mig) (k : N) (d : dbstate).
 Hypothesis Hasc : ascending ms = true.
-Hypothesis Hi32 : versions_i32 ms = true.
+Hypothesis Hi32 : versions_u32 ms = true.
 Hypothesis Hat : at_version k d = true.
+Hypothesis Hnc : id_conflict ms d = false.
 
 Definition FIN : dbstate := advanced o (pending k ms) d.
 Definition reach (c : dbstate) : Prop := c = d \/ c = sql_create_vt d \/ c = bootstrap d \/ c = FIN.
@@ -236,16 +237,17 @@ Proof.
 Qed.
 
 Lemma txn_complete : forall c k' rows i2,
-  at_version k' c = true -> d_vt c = Some (mkVt true rows) ->
+  at_version k' c = true -> id_conflict ms c = false -> d_vt c = Some (mkVt true rows) ->
   i_res i2 = None -> i_buf i2 = Some c -> i_lock i2 = Shared ->
   fst (run_list [] o [] (plan o (decode_version (max_version rows)) (decode_ids rows) ms) (c, i2))
   = advanced o (pending k' ms) c.
 Proof.
-  intros c k' rows i2 Hk Hvt Hr Hb Hl.
+  intros c k' rows i2 Hk Hfree Hvt Hr Hb Hl.
   destruct (at_version_parts _ _ Hk) as [H1 [H2 H3]]. unfold db_rows in H2, H3. rewrite Hvt in H2, H3. simpl in H2, H3.
   rewrite (decode_max_at k' rows H1 H2 H3).
   destruct (plan_run o k' (decode_ids rows) ms c rows i2 c) as [n Hn]; auto.
-  - intros m _ Hv. eapply id_check_none_at; eauto.
+  - intros m Hm. apply (id_check_none_free k' rows m H1 H2). intros r0 Hr0.
+    apply (conflict_free ms c m r0 Hfree Hm). rewrite (has_id_bootstrap_fix c rows Hvt). unfold db_rows. rewrite Hvt. exact Hr0.
   - intros m r _ Hv Hin. pose proof (rows_within_In _ _ _ H2 Hin). apply N.ltb_lt in Hv. lia.
   - rewrite Hn, Hl. simpl. unfold advanced. rewrite (has_id_bootstrap_fix c rows Hvt). unfold db_rows. rewrite Hvt. simpl.
     destruct (pending k' ms); simpl; [|reflexivity].
@@ -293,11 +295,13 @@ Proof.
   destruct (reach_has_id c rows Hc Evt) as [Hc'|Hc'].
   - right.
     assert (Hk' : at_version k c = true) by (rewrite Hc'; apply at_version_bootstrap; exact Hat).
-    match goal with |- context [run_list [] o [] _ (c, ?i2)] => rewrite (txn_complete c k rows i2 Hk' Evt eq_refl eq_refl eq_refl) end.
+    assert (Hf' : id_conflict ms c = false) by (rewrite Hc', id_conflict_bootstrap; exact Hnc).
+    match goal with |- context [run_list [] o [] _ (c, ?i2)] => rewrite (txn_complete c k rows i2 Hk' Hf' Evt eq_refl eq_refl eq_refl) end.
     rewrite Hc'. unfold FIN. apply advanced_bootstrap.
   - left.
     assert (Hk' : at_version (top k ms) c = true) by (rewrite Hc'; apply at_version_FIN).
-    match goal with |- context [run_list [] o [] _ (c, ?i2)] => rewrite (txn_complete c (top k ms) rows i2 Hk' Evt eq_refl eq_refl eq_refl) end.
+    assert (Hf' : id_conflict ms c = false) by (rewrite Hc'; unfold FIN; apply no_conflict_advanced; assumption).
+    match goal with |- context [run_list [] o [] _ (c, ?i2)] => rewrite (txn_complete c (top k ms) rows i2 Hk' Hf' Evt eq_refl eq_refl eq_refl) end.
     rewrite pending_top. destruct c as [vt ap]; simpl in Evt; subst vt. apply advanced_nil_fix.
 Qed.
 
@@ -491,26 +495,26 @@ End Conc.
 
 (* ---------- the statements pinned in Properties/C11.v ---------- *)
 Theorem at_most_once : forall o ms k d n sched,
-  ascending ms = true -> versions_i32 ms = true -> at_version k d = true ->
+  ascending ms = true -> versions_u32 ms = true -> at_version k d = true -> id_conflict ms d = false ->
   let c := s_db (steps o ms sched (init_sys n d)) in
   c = d \/ c = sql_create_vt d \/ c = bootstrap d \/ c = fst (run [] o ms d).
 Proof.
-  intros o ms k d n sched Ha Hi Hk c.
-  destruct (run_from_k o ms k d Ha Hk) as [Hd _]. rewrite Hd.
-  exact (at_most_once_reach o ms k d Ha Hi Hk n sched).
+  intros o ms k d n sched Ha Hi Hk Hf c.
+  destruct (run_from_k o ms k d Ha Hk Hf) as [Hd _]. rewrite Hd.
+  exact (at_most_once_reach o ms k d Ha Hi Hk Hf n sched).
 Qed.
 
 (* the same, spelled out: the statements of the pending migrations are in the committed database zero
    times or exactly once, all of them, in order, and so are their version rows *)
 Theorem committed_once : forall o ms k d n sched,
-  ascending ms = true -> versions_i32 ms = true -> at_version k d = true ->
+  ascending ms = true -> versions_u32 ms = true -> at_version k d = true -> id_conflict ms d = false ->
   let c := s_db (steps o ms sched (init_sys n d)) in
   exists l, (l = [] \/ l = pending k ms) /\
     d_applied c = d_applied d ++ stmts_all o l /\
     recorded_versions c = recorded_versions d ++ map (fun m => Z.of_N (m_version m)) l.
 Proof.
-  intros o ms k d n sched Ha Hi Hk c.
-  destruct (at_most_once_reach o ms k d Ha Hi Hk n sched) as [H|[H|[H|H]]]; fold c in H; rewrite H.
+  intros o ms k d n sched Ha Hi Hk Hf c.
+  destruct (at_most_once_reach o ms k d Ha Hi Hk Hf n sched) as [H|[H|[H|H]]]; fold c in H; rewrite H.
   - exists []. split; [left; reflexivity|]. unfold stmts_all; simpl. rewrite !app_nil_r. split; reflexivity.
   - exists []. split; [left; reflexivity|]. destruct (bookkeeping_create d) as [A B].
     unfold stmts_all; simpl. rewrite !app_nil_r. split; assumption.
@@ -523,31 +527,33 @@ Proof.
 Qed.
 
 Theorem each_instance_ok_or_err : forall o ms k d n sched p,
-  ascending ms = true -> versions_i32 ms = true -> at_version k d = true ->
+  ascending ms = true -> versions_u32 ms = true -> at_version k d = true -> id_conflict ms d = false ->
   In p (s_insts (steps o ms sched (init_sys n d))) ->
   match i_res (p_inst p) with
   | Some r => (r = ROk \/ exists e, r = RErr e) /\ i_lock (p_inst p) = Unlocked /\ i_buf (p_inst p) = None
   | None => p_todo p <> []
   end.
-Proof. intros o ms k d n sched p Ha Hi Hk. exact (instances_ok_or_err o ms k d Ha Hi Hk n sched p). Qed.
+Proof. intros o ms k d n sched p Ha Hi Hk Hf. exact (instances_ok_or_err o ms k d Ha Hi Hk Hf n sched p). Qed.
 
 (* once everybody has finished, any number (>= 1) of sequential re-runs ends in the sequential result *)
 Theorem retry_converges : forall o ms k d n sched retries,
-  ascending ms = true -> versions_i32 ms = true -> at_version k d = true ->
+  ascending ms = true -> versions_u32 ms = true -> at_version k d = true -> id_conflict ms d = false ->
   all_finished (steps o ms sched (init_sys n d)) = true ->
   Nat.iter (S retries) (fun c => fst (run [] o ms c)) (s_db (steps o ms sched (init_sys n d))) = fst (run [] o ms d).
 Proof.
-  intros o ms k d n sched retries Ha Hi Hk _.
-  destruct (run_from_k o ms k d Ha Hk) as [Hd _].
+  intros o ms k d n sched retries Ha Hi Hk Hf _.
+  destruct (run_from_k o ms k d Ha Hk Hf) as [Hd _].
   assert (Hone : forall c, reach o ms k d c -> fst (run [] o ms c) = fst (run [] o ms d)).
   { intros c [ -> | [ -> | [ -> | -> ]]].
     - reflexivity.
-    - destruct (run_from_k o ms k _ Ha (at_version_create _ _ Hk)) as [H1 _]. rewrite H1, Hd. apply advanced_create.
-    - destruct (run_from_k o ms k _ Ha (at_version_bootstrap _ _ Hk)) as [H1 _]. rewrite H1, Hd. apply advanced_bootstrap.
-    - destruct (run_idempotent o ms k d Ha Hi Hk) as [H1 _]. rewrite Hd in H1. unfold FIN. rewrite H1. symmetry. exact Hd. }
+    - assert (Hf' : id_conflict ms (sql_create_vt d) = false) by (rewrite id_conflict_create; exact Hf).
+      destruct (run_from_k o ms k _ Ha (at_version_create _ _ Hk) Hf') as [H1 _]. rewrite H1, Hd. apply advanced_create.
+    - assert (Hf' : id_conflict ms (bootstrap d) = false) by (rewrite id_conflict_bootstrap; exact Hf).
+      destruct (run_from_k o ms k _ Ha (at_version_bootstrap _ _ Hk) Hf') as [H1 _]. rewrite H1, Hd. apply advanced_bootstrap.
+    - destruct (run_idempotent o ms k d Ha Hi Hk Hf) as [H1 _]. rewrite Hd in H1. unfold FIN. rewrite H1. symmetry. exact Hd. }
   assert (Hfin : reach o ms k d (fst (run [] o ms d))) by (rewrite Hd; right; right; right; reflexivity).
   induction retries as [|r IH].
-  - simpl. apply Hone. exact (at_most_once_reach o ms k d Ha Hi Hk n sched).
+  - simpl. apply Hone. exact (at_most_once_reach o ms k d Ha Hi Hk Hf n sched).
   - change (Nat.iter (S (S r)) (fun c => fst (run [] o ms c)) (s_db (steps o ms sched (init_sys n d))))
       with (fst (run [] o ms (Nat.iter (S r) (fun c => fst (run [] o ms c)) (s_db (steps o ms sched (init_sys n d)))))).
     rewrite IH. apply Hone. exact Hfin.
